@@ -264,6 +264,22 @@ def main(tier, seed):
     disagreements = 0
     oracle_fail = 0
     samples = []
+    # kept failures run first: files with one fault each that were once read without any report
+    cdir = os.path.join(VERIF, "corpus", "C03")
+    for fn in sorted(os.listdir(cdir)) if os.path.isdir(cdir) else []:
+        if not fn.endswith(".p21"):
+            continue
+        fpath = os.path.join(cdir, fn)
+        rcc, outc, errc = shb([hfile, "read", fpath, "dump", "-"], timeout=60)
+        sevc = [l for l in outc.decode("latin-1").split("\n") if l.startswith("SEV read")]
+        rcp, _o, _e = shb([p21read, fpath, os.path.join(wdir, "p.out")], timeout=60, cwd=wdir)
+        evals += 1
+        class_hist["corpus"] = class_hist.get("corpus", 0) + 1
+        fsev = int(sevc[0].split()[3]) if sevc else None
+        if fsev is None or fsev >= 2 or rcp == 0:
+            oracle_fail += 1
+            res.violation("corpus/C03/%s (one fault, kept from an earlier run): file severity %s, p21read exit %d: the violation is not reported" % (fn, fsev, rcp),
+                          {"input_file": fpath, "replay": "%s %s /tmp/out.p21; echo $?" % (p21read, fpath)})
     for k in range(npop):
         r = rng(seed, "c03/%d" % k)
         g = popgen.Gen(r, fancy=False)
